@@ -748,21 +748,33 @@ func (c *Ctx) RuleLimitZero(fns []*ssa.Function, varName string) {
 					if !ok || g.Name() != varName || ld.Referrers() == nil {
 						continue
 					}
-					for _, r := range *ld.Referrers() {
-						switch x := r.(type) {
-						case *ssa.DebugRef, *ssa.MakeInterface: // printed in the message
-						case *ssa.BinOp:
-							switch x.Op {
-							case token.EQL, token.NEQ, token.LSS, token.LEQ, token.GTR, token.GEQ:
+					seenPhi := map[ssa.Value]bool{}
+					var uses func(v ssa.Value)
+					uses = func(v ssa.Value) {
+						if seenPhi[v] || v.Referrers() == nil {
+							return
+						}
+						seenPhi[v] = true
+						for _, r := range *v.Referrers() {
+							switch x := r.(type) {
+							case *ssa.DebugRef, *ssa.MakeInterface: // printed in the message
+							case *ssa.BinOp:
+								switch x.Op {
+								case token.EQL, token.NEQ, token.LSS, token.LEQ, token.GTR, token.GEQ:
+								default:
+									c.addc("violated", "C18.L", fn, x.Pos(), "limit use", varName+" enters an arithmetic expression: the limit is to be compared with a length, nothing else", "")
+								}
+							case *ssa.Phi:
+								// a local copy (`limit := MaxInputLength; if limit == 0 { limit = 32 }`): the copy is held to
+								// the same uses
+								uses(x)
+							case *ssa.Store:
 							default:
-								c.addc("violated", "C18.L", fn, x.Pos(), "limit use", varName+" enters an arithmetic expression: the limit is to be compared with a length, nothing else", "")
+								c.addc("violated", "C18.L", fn, r.Pos(), "limit use", varName+" is used for something other than a comparison or the too-long message ("+r.String()+"): a reservation, a pattern or a bound built from the limit follows the configuration, not the input — a raised limit allocates (or panics) on every call", "MaxInputLength = math.MaxInt")
 							}
-						case *ssa.Phi, *ssa.Store:
-							// a local copy (`limit := MaxInputLength`): followed by the comparison rule through the phi
-						default:
-							c.addc("violated", "C18.L", fn, r.Pos(), "limit use", varName+" is used for something other than a comparison or the too-long message ("+r.String()+"): a reservation, a pattern or a bound built from the limit follows the configuration, not the input — a raised limit allocates (or panics) on every call", "MaxInputLength = math.MaxInt")
 						}
 					}
+					uses(ld)
 				}
 			}
 		}
